@@ -241,6 +241,17 @@ pub fn check_c05(s: &str, sink: &Sink, c: &BCounters, family: &str) {
             c.rejected.fetch_add(1, AO::Relaxed);
         }
     }
+    // history independence: the same input parsed again gives the same result
+    if let Ok(again) = guarded(|| Version::parse(s)) {
+        let same = match (&got, &again) {
+            (Ok(a), Ok(b)) => same_fields(a, b),
+            (Err(a), Err(b)) => a.kind() == b.kind() && a.offset() == b.offset(),
+            _ => false,
+        };
+        if !same {
+            sink.report("history", format!("input={:?}", s), case(), "a second Version::parse of the same input differs".into(), "same".into());
+        }
+    }
     // the other observation points agree with Version::parse
     if let Ok(r2) = guarded(|| s.parse::<Version>()) {
         let same = match (&got, &r2) {
